@@ -45,6 +45,8 @@ package sessions
 //@   modifies nothing
 //@   fresh result.0
 //@   ensures [C02] no_data_on_error: result.1 != nil ==> result.0 == nil
+// a value that opens under the cipher yields its session, whatever the session says (round trip)
+//@   ensures [C02] what_opens_is_returned: called(@Unmarshal#1) && @Unmarshal#1 == nil ==> result.1 == nil && result.0 != nil
 //@   ensures [C02 C08] opened_under_this_cipher: result.1 == nil ==> result.0 != nil && called(@Unmarshal#1) && @Unmarshal#1 == nil && arg(@Unmarshal#1, 0) == c && arg(@Unmarshal#1, 1) == value
 // ... and the session handed back is what the cipher decoded, field for field (nothing is rewritten on the way out)
 //@   let S = result.0
@@ -82,7 +84,7 @@ package sessions
 //@ func (s *CookieStore) LoadSession(req *http.Request) (*SessionState, error)
 //@   modifies nothing
 //@   fresh result.0
-//@   ensures [C02 C01] only_what_opens: result.1 == nil ==> result.0 != nil && called(@Cookie#1) && @Cookie#1.1 == nil && arg(@Cookie#1, 1) == s.Name && called(@UnmarshalSession#1) && @UnmarshalSession#1.1 == nil && result.0 == @UnmarshalSession#1.0 && arg(@UnmarshalSession#1, 0) == @Cookie#1.0.Value && arg(@UnmarshalSession#1, 1) == s.CookieCipher
+//@   ensures [C02 C01 C03] only_what_opens: result.1 == nil ==> result.0 != nil && called(@Cookie#1) && @Cookie#1.1 == nil && arg(@Cookie#1, 1) == s.Name && called(@UnmarshalSession#1) && @UnmarshalSession#1.1 == nil && result.0 == @UnmarshalSession#1.0 && arg(@UnmarshalSession#1, 0) == @Cookie#1.0.Value && arg(@UnmarshalSession#1, 1) == s.CookieCipher
 //@   ensures [C02 C01] no_session_on_error: result.1 != nil ==> result.0 == nil && (result.1 == http.ErrNoCookie || result.1 == ErrInvalidSession)
 
 // ---- C02: the cookie cipher is keyed with the whole cookie secret -------------------------------------------------
